@@ -343,6 +343,42 @@ def isinstance_decider(name, classes, value):
     return decide
 
 
+def simplify(test, decide):
+    """A test under a case: True / False when the case settles it, else the
+    test with the settled operands of and / or / not removed."""
+    d = decide(test)
+    if d is not None:
+        return d
+    if isinstance(test, ast.UnaryOp) and isinstance(test.op, ast.Not):
+        r = simplify(test.operand, decide)
+        if isinstance(r, bool):
+            return not r
+        if r is test.operand:
+            return test
+        return ast.copy_location(ast.UnaryOp(op=ast.Not(), operand=r), test)
+    if isinstance(test, ast.BoolOp):
+        is_and = isinstance(test.op, ast.And)
+        keep = []
+        changed = False
+        for v in test.values:
+            r = simplify(v, decide)
+            if isinstance(r, bool):
+                changed = True
+                if r != is_and:         # False in an `and`, True in an `or`
+                    return r
+                continue
+            changed = changed or r is not v
+            keep.append(r)
+        if not keep:
+            return is_and
+        if not changed:
+            return test
+        if len(keep) == 1:
+            return keep[0]
+        return ast.copy_location(ast.BoolOp(op=test.op, values=keep), test)
+    return test
+
+
 def specialise(stmts, decide):
     """The statements of a block under a case: every `if` the case decides
     is replaced by the branch taken, what follows a return / raise of the
@@ -351,9 +387,17 @@ def specialise(stmts, decide):
     out = []
     for st in stmts:
         if isinstance(st, ast.If):
-            d = decide(st.test)
-            if d is None:
-                out.append(st)
+            d = simplify(st.test, decide)
+            if not isinstance(d, bool):
+                if d is st.test:
+                    out.append(st)
+                else:
+                    # partly settled: the same branches under the reduced test
+                    # (a fresh `if`; the statements inside are the originals)
+                    new = ast.If(test=d, body=specialise(st.body, decide),
+                                 orelse=specialise(st.orelse, decide))
+                    new._orig_if = st
+                    out.append(ast.copy_location(new, st))
                 continue
             sub = specialise(st.body if d else st.orelse, decide)
             out.extend(sub)
